@@ -60,6 +60,8 @@ def gen(tier, rng, scale):
                 prev = c
             if d > prev:
                 segs.append(["g", d - prev, base + prev * step, step])
+            if rng.chance(1, 4):
+                segs, d = _with_zeros(rng, segs, d)
             items.append({"extra": extra, "segs": segs, "depth": d})
         cases.append({"items": items})
     # end-to-end stream: the same depths as call chains of a perf.data recording converted by `samply import`
@@ -70,7 +72,10 @@ def gen(tier, rng, scale):
         for si in range(erng.range(1, 4)):
             d = max(1, _depth(erng, True))
             base += 0x1000000
-            items.append({"extra": False, "segs": [["g", d, base, erng.choice([8, 16, 24])]], "depth": d})
+            segs = [["g", d, base, erng.choice([8, 16, 24])]]
+            if erng.chance(1, 3) and d > 2:
+                segs, d = _with_zeros(erng, segs, d, keep_leaf=True)
+            items.append({"extra": False, "segs": segs, "depth": d})
         if erng.chance(1, 3):
             # a second recorded event (a tracepoint): its samples become markers, whose call chains are stacks of the profile too
             for it in items:
@@ -79,6 +84,39 @@ def gen(tier, rng, scale):
                 items[0]["marker"] = True
         cases.append({"kind": "e2e", "items": items})
     return cases
+
+
+def _with_zeros(rng, segs, d, keep_leaf=False):
+    """cut 1..3 null return addresses (["z"]: StackFrame::ReturnAddress(0), looked up at address 0) into the frame runs - a frame-pointer walk through
+    garbage produces them; each is a frame of its own and counts towards the depth.  Some runs become return addresses (["r", ...]) instead of
+    already adjusted ones"""
+    for _ in range(rng.range(1, 3)):
+        runs = [i for i, sg in enumerate(segs) if sg[0] in "gr" and sg[1] >= 2]
+        if not runs:
+            break
+        i = rng.choice(runs)
+        k, n, start, step = segs[i]
+        cut = rng.choice([1, 1, n - 1, rng.range(1, n - 1)])
+        segs = segs[:i] + [[k, cut, start, step], ["z"], [k, n - cut, start + cut * step, step]] + segs[i + 1:]
+        d += 1
+    if rng.chance(1, 2):
+        segs = [["r"] + sg[1:] if sg[0] == "g" and sg[1] <= 400 and rng.chance(1, 2) else sg for sg in segs]
+    return segs, d
+
+
+def _coq_seg(sg):
+    return "Mark" if sg[0] == "t" else "Seg 1 0 1" if sg[0] == "z" else "Seg %d %d %d" % (sg[1], sg[2], sg[3])
+
+
+def _lookups(segs):
+    """(lookup address, is a null return address) per frame, root first"""
+    out = []
+    for sg in segs:
+        if sg[0] == "z":
+            out.append((0, True))
+        elif sg[0] in "gr":
+            out += [(sg[2] + i * sg[3], False) for i in range(sg[1])]
+    return out
 
 
 def with_items(case, items):
@@ -181,9 +219,8 @@ def _e2e_markers(samply, case, d):
     t = ORIGIN + 10
     recs = []
     for s in case["items"]:
-        _, n, start, step = s["segs"][0]
-        lookups = [start + i * step for i in range(n)]
-        chain = [lookups[-1]] + [a + 1 for a in reversed(lookups[:-1])]
+        lookups = _lookups(s["segs"])
+        chain = [lookups[-1][0]] + [0 if z else a + 1 for a, z in reversed(lookups[:-1])]
         t += 1000
         s["_t"] = t
         if 8 * (len(chain) + 8) + 64 >= 65536:
@@ -227,9 +264,8 @@ def _e2e_one(samply, case, d):
     recs = [P.comm(100, 100, "deep", ORIGIN + 1, True)]
     t = ORIGIN + 10
     for s in case["items"]:
-        _, n, start, step = s["segs"][0]
-        lookups = [start + i * step for i in range(n)]            # root first
-        chain = [lookups[-1]] + [a + 1 for a in reversed(lookups[:-1])]     # leaf ip, then return addresses towards the root
+        lookups = _lookups(s["segs"])            # root first
+        chain = [lookups[-1][0]] + [0 if z else a + 1 for a, z in reversed(lookups[:-1])]     # leaf ip, then return addresses towards the root
         t += 1000
         s["_t"] = t
         recs.append(P.sample(100, 100, t, chain[0], [P.PERF_CONTEXT_USER] + chain))
@@ -288,7 +324,7 @@ def _evaluate_e2e(cases):
     for c, obs in zip(cases, results):
         ss = []
         for k, s in enumerate(c["items"]):
-            segs = K.coq_list(["Seg %d %d %d" % (sg[1], sg[2], sg[3]) for sg in s["segs"]])
+            segs = K.coq_list([_coq_seg(sg) for sg in s["segs"]])
             o = K.coq_list(obs[k]) if obs is not None else "[OBad]"
             ss.append("(false, %s, %s)" % (segs, o))
         terms.append(K.coq_list(ss))
@@ -305,7 +341,12 @@ def _line(c):
     for k, s in enumerate(c["items"]):
         toks += ["S", str(k + 1), "1" if s["extra"] else "0"]
         for sg in s["segs"]:
-            toks.append("t" if sg[0] == "t" else "g%d:%d:%d" % (sg[1], sg[2], sg[3]))
+            if sg[0] == "z":
+                toks.append("r0")
+            elif sg[0] == "r":
+                toks += ["r%d" % (sg[2] + i * sg[3] + 1) for i in range(sg[1])]
+            else:
+                toks.append("t" if sg[0] == "t" else "g%d:%d:%d" % (sg[1], sg[2], sg[3]))
         toks.append(";")
     return " ".join(toks)
 
@@ -353,7 +394,7 @@ def evaluate(cases):
                 per = [["P"]] * len(c["items"])
         ss = []
         for s, toks in zip(c["items"], per):
-            segs = K.coq_list(["Mark" if sg[0] == "t" else "Seg %d %d %d" % (sg[1], sg[2], sg[3]) for sg in s["segs"]])
+            segs = K.coq_list([_coq_seg(sg) for sg in s["segs"]])
             obs = K.coq_list([_oseg(t) for t in toks])
             ss.append("(%s, %s, %s)" % ("true" if s["extra"] else "false", segs, obs))
         terms.append(K.coq_list(ss))
